@@ -136,14 +136,32 @@ theorem pSelect_eq (A0 A1 : ℕ) (p : PSt) (s : St) (ag : ℤ) (hr : Rel p s) (h
   simp only [pSelect, select, ra1, ra2, ra3, rk0, rk1, rk2, rk3, he, x0.1, x0.2, x1.1, x1.2, x2.1, x2.2, x3.1, x3.2,
     w1, w2, w3, w4, s1, s2]
 
-/-- **refinement**: on its documented domain the packed model is total and equals the half-step model. -/
-theorem fromU64Prefix_eq (a0 a1 : ℕ) (h63 : 2 ^ 63 ≤ a0) (hW : a0 < W) (hle : a1 ≤ a0) :
-    ∃ fuel, fromU64Prefix a0 a1 = some (prefixM LIMIT fuel a0 a1) := by
+/-- the half-step loop stops because `a3 < L`, not because the fuel ran out, as soon as `fuel > a3`. -/
+theorem loop_exit (L : ℕ) (hL : 0 < L) (f : ℕ) (s : St) (h : s.a3 < s.a2) (hf : s.a3 < f) :
+    (loop L f s).a3 < L := by
+  induction f generalizing s with
+  | zero => omega
+  | succ f ih =>
+    simp only [loop]
+    split
+    · next hc =>
+      have ha3 : 0 < s.a3 := by omega
+      obtain ⟨d1, d2⟩ := div_facts s.a2 s.a3 ha3
+      apply ih
+      · simp only [halfStep]; omega
+      · simp only [halfStep]; omega
+    · next hc => omega
+
+/-- **refinement**: on its documented domain the packed model is total and equals the half-step model; when the loop
+    is entered it is left through its own exit test `a3 < LIMIT` (the fuel of the model never runs out). -/
+theorem fromU64Prefix_eq' (a0 a1 : ℕ) (h63 : 2 ^ 63 ≤ a0) (hW : a0 < W) (hle : a1 ≤ a0) :
+    ∃ fuel, fromU64Prefix a0 a1 = some (prefixM LIMIT fuel a0 a1)
+      ∧ (LIMIT ≤ a1 → LIMIT ≤ a0 - a0 / a1 * a1 → (loop LIMIT fuel (initSt a0 a1)).a3 < LIMIT) := by
   have hL := LIMIT_pos
   unfold fromU64Prefix prefixM
   rw [if_neg (by omega)]
   by_cases h1 : a1 < LIMIT
-  · exact ⟨0, by simp only [h1, if_true]⟩
+  · exact ⟨0, by simp only [h1, if_true], fun h => absurd h (by omega)⟩
   · simp only [h1, if_false]
     push Not at h1
     have ha1 : 0 < a1 := by omega
@@ -166,7 +184,7 @@ theorem fromU64Prefix_eq (a0 a1 : ℕ) (h63 : 2 ^ 63 ≤ a0) (hW : a0 < W) (hle 
     rw [← ha2]
     by_cases h2 : a2 < LIMIT
     · have s1 : wsub a1 a2 = a1 - a2 := wsub_eq (by omega) (by omega)
-      refine ⟨0, ?_⟩
+      refine ⟨0, ?_, fun _ h => absurd h (by omega)⟩
       simp only [h2, if_true, x2.1, x2.2, s1]
       split <;> rfl
     · simp only [h2, if_false]
@@ -189,12 +207,19 @@ theorem fromU64Prefix_eq (a0 a1 : ℕ) (h63 : 2 ^ 63 ≤ a0) (hW : a0 < W) (hle 
       rw [f1, f2, f4, f5]
       obtain ⟨a3, ha3⟩ : ∃ a3, a3 = a1 - q' * a2 := ⟨_, rfl⟩
       rw [← ha3] at hinv ⊢
-      refine ⟨2 * (a3 + 1), ?_⟩
+      refine ⟨2 * (a3 + 1), ?_, fun _ _ => ?_⟩
+      rotate_left
+      · exact loop_exit LIMIT hL _ _ hinv.o2 (by simp only; omega)
       have hrel : Rel (PSt.mk a1 a2 a3 (2 ^ 32) 1 (1 * LIMIT + q) (q' * LIMIT + (1 + q' * q)) true)
           (St.mk a1 a2 a3 1 0 0 1 1 q q' (1 + q' * q) true) :=
         ⟨rfl, rfl, rfl, by norm_num [LIMIT], by norm_num, rfl, rfl⟩
       obtain ⟨rl, evl⟩ := pLoop_rel a0 a1 hW hle (a3 + 1) _ _ _ hrel rfl rfl hinv
       obtain ⟨agf, hfin⟩ := inv_loop a0 a1 LIMIT hL (2 * (a3 + 1)) _ _ hinv
       rw [pSelect_eq a0 a1 _ _ agf rl evl hfin hW hle]
+
+theorem fromU64Prefix_eq (a0 a1 : ℕ) (h63 : 2 ^ 63 ≤ a0) (hW : a0 < W) (hle : a1 ≤ a0) :
+    ∃ fuel, fromU64Prefix a0 a1 = some (prefixM LIMIT fuel a0 a1) := by
+  obtain ⟨fuel, h, _⟩ := fromU64Prefix_eq' a0 a1 h63 hW hle
+  exact ⟨fuel, h⟩
 
 end Ruint.Lh
